@@ -311,6 +311,11 @@ func run(c Case) (v *vcore.Violation, stt stats) {
 		for k := 0; k <= int(c.MaxRetrans); k++ {
 			id, ok := txKey(x)
 			if !ok {
+				for _, e := range st.Srv.VerifTxTable() {
+					if e.Addr == st.Sock(x.sock).Addr.String() && e.Seq&0xffffff == x.seq {
+						return vcore.Violatef("retrans-differs", "final: the bytes kept for retransmitting request seq %d (%x) differ from the datagram that was sent (%x)", x.seq, e.Bytes, x.b), stt
+					}
+				}
 				return vcore.Violatef("lost-bookkeeping", "final: request seq %d vanished early", x.seq), stt
 			}
 			o := r.Step(stack.Op{Kind: "expire_tx", TrID: id})
